@@ -854,6 +854,28 @@ pub fn gen_fuses(out: &mut Out, prop: u32, tier: &str) {
     }
 }
 
+/// an element destructor that panics at its k-th call during clear / removals / the drop of
+/// the array (the paths whose drop guards must finish the work), then further use
+pub fn gen_bombs(out: &mut Out, prop: u32, tier: &str) {
+    let max = if tier == "quick" { 3 } else { 4 };
+    for (c, r) in shapes(max) {
+        if c == 0 { continue; }
+        let mut ops: Vec<(u64, Op)> = vec![(c * r, Op::Clear), (c * r, Op::DropArr)];
+        for st in [vec![], vec![DStep::Front], vec![DStep::Back, DStep::Front]] {
+            for i in 0..r { ops.push((c, Op::RemoveRow(i, st.clone(), DEnd::Drop))); }
+            for i in 0..c { ops.push((r, Op::RemoveCol(i, st.clone(), DEnd::Drop))); }
+            ops.push((c, Op::PopRow(st.clone(), DEnd::Drop)));
+            ops.push((r, Op::PopCol(st.clone(), DEnd::Drop)));
+        }
+        for (calls, op) in ops {
+            for k in 0..=calls {
+                emit(out, prop, true, &[FromVecOp(c, r), Op::Bomb(k, Box::new(op.clone())),
+                                        Op::PushRow(Script::honest(ids(c as usize, 600))), Op::Fill(4300), Op::Clear]);
+            }
+        }
+    }
+}
+
 /// C20: clone() / clone_from() between every pair of small shapes (equal counts with
 /// different dimensions included), then the conversions out, tracked and Copy elements
 pub fn gen_clone_from(out: &mut Out, prop: u32, tier: &str) {
